@@ -19,6 +19,10 @@ def run(ck):
     b = ck.go_build("cagg")
     trace, summ = ck.run_driver(b, args)
     ck.validate(MODULE, trace, sig=sig)
+    if PROP == "C06":
+        # hundreds of flows due in one scan (AggMany.tla)
+        tm, sm = ck.run_driver(b, ["-mode", "c06many"], name="many")
+        ck.validate("AggManyTrace", tm, sig=lambda ev: "Many:" + ev.get("e", "?"), label="AggManyTrace")
     if PROP != "C05":
         # timeouts of 20 and 30 units: scans one or two units (a small fraction of a timeout) before and after a deadline
         tw, sw = ck.run_driver(b, ["-mode", "c06", "-wide"], name="wide")
@@ -29,4 +33,6 @@ def run(ck):
     ck.finish(rule=RULE, technique="TLA+ Aggregation spec (TLC exhaustive) + graph replay / random histories on the real AggregationProcess under virtual time + TLC trace validation of full state projections")
 
 def replay(path):
+    if "AggManyTrace" in path:
+        return vlib.replay(PROP, "AggManyTrace", path)
     vlib.replay(PROP, MODULE, path, cfg="AggTrace_wide.cfg" if "AggTrace_wide" in path else None)
